@@ -12,7 +12,13 @@
 (* 1-based sequences indexed by value+1 (row = true allele count + 1).     *)
 (* N-dimensional spectra are the flat C-order sequences of SpectrumOps.    *)
 (***************************************************************************)
-EXTENDS SpectrumOps
+EXTENDS SpectrumOps, TLC
+
+\* TLC evaluates [k \in 1..N |-> e] lazily and re-evaluates e at every application; Tab turns such a
+\* sequence into an explicit tuple (same value), so that nested constructions are computed once
+Tab(q)    == SubSeq(q, 1, Len(q))
+TabMat(M) == Tab([x \in 1..Len(M) |-> Tab(M[x])])
+TabF(f)   == f @@ <<>>                      \* the same for a function on an arbitrary finite set
 
 (***************************************************************************)
 (* Genotype configurations ("partitions") and their probabilities          *)
@@ -59,13 +65,13 @@ WaysF(F, c) ==
              IN  RMul(Multinom(c), RMul(RPow(g[1], c[1]), RMul(RPow(g[2], c[2]), RPow(g[3], c[3]))))
 \* probabilities of all configurations of allele count x: a function on Configs(x, n)
 PartProbs(x, n, F) ==
-    IF F = "0" THEN [c \in Configs(x, n) |-> PartProb0(x, n, c)]
-    ELSE LET w == [c \in Configs(x, n) |-> WaysF(F, c)]
+    IF F = "0" THEN TabF([c \in Configs(x, n) |-> PartProb0(x, n, c)])
+    ELSE LET w == TabF([c \in Configs(x, n) |-> WaysF(F, c)])
              tot == RSum(w)
-         IN  [c \in Configs(x, n) |-> RDiv(w[c], tot)]
+         IN  TabF([c \in Configs(x, n) |-> RDiv(w[c], tot)])
 \* dadi.LowPass.part_inbreeding_probability on an explicit list of configurations
 PartInbList(cs, F) ==
-    LET w == [i \in 1..Len(cs) |-> WaysF(F, cs[i])]
+    LET w == Tab([i \in 1..Len(cs) |-> WaysF(F, cs[i])])
         tot == RSum(w)
     IN  [i \in 1..Len(cs) |-> RDiv(w[i], tot)]
 
@@ -76,19 +82,19 @@ PartInbList(cs, F) ==
 ProjInb(c, k) ==
     LET h == k \div 2
         den == RBinom(NInd(c), h)
-    IN  [j1 \in 1..(k + 1) |->
+    IN  Tab([j1 \in 1..(k + 1) |->
            LET j == j1 - 1 IN
            RDiv(RSum([t \in 0..(j \div 2) |->
                         LET a2 == t
                             a1 == j - 2 * t
                             a0 == h - a1 - a2
-                        IN  IF a0 < 0 THEN "0" ELSE RMul(RBinom(c[1], a0), RMul(RBinom(c[2], a1), RBinom(c[3], a2)))]), den)]
+                        IN  IF a0 < 0 THEN "0" ELSE RMul(RBinom(c[1], a0), RMul(RBinom(c[2], a1), RBinom(c[3], a2)))]), den)])
 ProjRow(nseq, nsub, F, x) ==
-    IF F = "0" THEN [j1 \in 1..(nsub + 1) |-> IF HypSupport(nseq, nsub, x, j1 - 1) THEN Hyp(nseq, nsub, x, j1 - 1) ELSE "0"]
+    IF F = "0" THEN Tab([j1 \in 1..(nsub + 1) |-> IF HypSupport(nseq, nsub, x, j1 - 1) THEN Hyp(nseq, nsub, x, j1 - 1) ELSE "0"])
     ELSE LET pp == PartProbs(x, nseq \div 2, F)
-             pi == [c \in DOMAIN pp |-> ProjInb(c, nsub)]
-         IN  [j1 \in 1..(nsub + 1) |-> RSum([c \in DOMAIN pp |-> RMul(pp[c], pi[c][j1])])]
-ProjectionMatrix(nseq, nsub, F) == [x1 \in 1..(nseq + 1) |-> ProjRow(nseq, nsub, F, x1 - 1)]
+             pi == TabF([c \in DOMAIN pp |-> ProjInb(c, nsub)])
+         IN  Tab([j1 \in 1..(nsub + 1) |-> RSum([c \in DOMAIN pp |-> RMul(pp[c], pi[c][j1])])])
+ProjectionMatrix(nseq, nsub, F) == Tab([x1 \in 1..(nseq + 1) |-> ProjRow(nseq, nsub, F, x1 - 1)])
 
 (***************************************************************************)
 (* Calling: heterozygote miscalls, no-call, enough individuals covered     *)
@@ -104,17 +110,17 @@ BinPmf(k, n, p) == RMul(RBinom(n, k), RMul(RPow(p, k), RPow(RSub("1", p), n - k)
 CallingErrorMatrix(cov, nsub, F) ==
     LET E == HetErr(cov)
         n == nsub \div 2
-        pe == [n1 \in 0..n |-> [e \in 0..n1 |-> BinPmf(e, n1, E)]]
-        pr == [e \in 0..n |-> [r \in 0..e |-> RDiv(RBinom(e, r), RPow("2", e))]]
-    IN  [x1 \in 1..(nsub + 1) |->
+        pe == Tab([n1 \in 1..(n + 1) |-> Tab([e \in 1..n1 |-> BinPmf(e - 1, n1 - 1, E)])])     \* pe[n1 + 1][e + 1]
+        pr == Tab([e \in 1..(n + 1) |-> Tab([r \in 1..e |-> RDiv(RBinom(e - 1, r - 1), RPow("2", e - 1))])])
+    IN  Tab([x1 \in 1..(nsub + 1) |->
            LET x == x1 - 1
                pp == PartProbs(x, n, F)
-           IN  [y1 \in 1..(nsub + 1) |->
+           IN  Tab([y1 \in 1..(nsub + 1) |->
                   LET dlt == y1 - x1 IN        \* net change = (e - r) - r
                   RSum([c \in DOMAIN pp |->
                           RMul(pp[c], RSum([e \in 0..c[2] |->
                                   IF (e - dlt) % 2 = 0 /\ e - dlt >= 0 /\ (e - dlt) \div 2 <= e
-                                  THEN RMul(pe[c[2]][e], pr[e][(e - dlt) \div 2]) ELSE "0"]))])]]
+                                  THEN RMul(pe[c[2] + 1][e + 1], pr[e + 1][(e - dlt) \div 2 + 1]) ELSE "0"]))])])])
 
 \* GATK multi-sample calling needs at least two reads carrying the alternative allele
 \* over all individuals; NoCall[x+1] = P(fewer than two alt reads | allele count x)
@@ -132,9 +138,9 @@ NoCallConfig(cov, c) ==
         P1b == IF n1 = 0 THEN "0" ELSE RMul(RMul(RPow(c0, n2), RPow(h, n1 - 1)), RMul(RInt(n1), g))
     IN  RAdd(P0, RAdd(P1a, P1b))
 NoCall(cov, nseq, F) ==
-    [x1 \in 1..(nseq + 1) |->
+    Tab([x1 \in 1..(nseq + 1) |->
        LET pp == PartProbs(x1 - 1, nseq \div 2, F)
-       IN  RSum([c \in DOMAIN pp |-> RMul(pp[c], NoCallConfig(cov, c))])]
+       IN  RSum([c \in DOMAIN pp |-> RMul(pp[c], NoCallConfig(cov, c))])])
 \* one individual is known to be covered (the site is variant); at least nsub/2 - 1 of the others must be
 EnoughCovered(cov, nseq, nsub) ==
     LET N == nseq \div 2 - 1
@@ -149,9 +155,9 @@ EnoughCovered(cov, nseq, nsub) ==
 ContractAxis(sh, d, a, T) ==
     LET cols == Len(T[1])
         sh2  == ShWithAxis(sh, a, cols)
-    IN  [k \in 1..Size(sh2) |->
+    IN  Tab([k \in 1..Size(sh2) |->
            LET ix == Unflat(sh2, k)
-           IN  RSum([h \in 0..(sh[a] - 1) |-> RMul(d[Flat(sh, WithAxis(ix, a, h))], T[h + 1][ix[a] + 1])])]
+           IN  RSum([h \in 0..(sh[a] - 1) |-> RMul(d[Flat(sh, WithAxis(ix, a, h))], T[h + 1][ix[a] + 1])])])
 RECURSIVE ContractAll(_, _, _, _)
 \* Ts[p] = sequence of matrices applied in order to axis p
 ContractAll(sh, d, Ts, a) ==
@@ -161,37 +167,42 @@ ContractAll(sh, d, Ts, a) ==
                              ELSE go(ShWithAxis(s, a, Len(Ts[a][j][1])), ContractAxis(s, dd, a, Ts[a][j]), j + 1)
              r == go(sh, d, 1)
          IN  ContractAll(r.sh, r.d, Ts, a + 1)
-ScaleMat(c, M) == [x \in 1..Len(M) |-> [y \in 1..Len(M[x]) |-> RMul(c, M[x][y])]]
+ScaleMat(c, M) == Tab([x \in 1..Len(M) |-> Tab([y \in 1..Len(M[x]) |-> RMul(c, M[x][y])])])
 OuterAt(vs, ix) == IProdR([p \in 1..Len(vs) |-> vs[p][ix[p] + 1]])       \* product of per-axis vectors at index ix
 ShapeOf(ns) == [p \in 1..Len(ns) |-> ns[p] + 1]
-Zeroed(s) == [k \in 1..Size(s.sh) |-> IF s.m[k] THEN "0" ELSE s.d[k]]    \* masked entries carry no sites
+Zeroed(s) == Tab([k \in 1..Size(s.sh) |-> IF s.m[k] THEN "0" ELSE s.d[k]])    \* masked entries carry no sites
 
 \* the components dadi precomputes for P populations
 NoCallND(covs, nseq, Fs) ==
-    LET v == [p \in 1..Len(nseq) |-> NoCall(covs[p], nseq[p], Fs[p])]
+    LET v == Tab([p \in 1..Len(nseq) |-> NoCall(covs[p], nseq[p], Fs[p])])
         sh == ShapeOf(nseq)
-    IN  [k \in 1..Size(sh) |-> OuterAt(v, Unflat(sh, k))]
+    IN  Tab([k \in 1..Size(sh) |-> OuterAt(v, Unflat(sh, k))])
 \* regime switch: an entry whose no-call probability exceeds the threshold is simulated, the rest is analytic
 UseSim(nocall, thr) == [k \in 1..Len(nocall) |-> RLt(thr, nocall[k])]
-\* subsampling matrix of population p, scaled by the probability that enough of ITS individuals are covered
-SubsampleMat(cov, nseq, nsub, F) == ScaleMat(EnoughCovered(cov, nseq, nsub), ProjectionMatrix(nseq, nsub, F))
+\* subsampling matrix of one population, scaled by a survival factor lam in [0,1] (sites without enough covered
+\* individuals are lost).  dadi uses for every population the probability that enough individuals are covered in
+\* all populations; C18 only requires that the factor is a probability, so the laws are stated for any lam.
+SubsampleMat(lam, nseq, nsub, F) == ScaleMat(lam, ProjectionMatrix(nseq, nsub, F))
+SurvivalAll(covs, nseq, nsub) == IProdR([p \in 1..Len(nseq) |-> EnoughCovered(covs[p], nseq[p], nsub[p])])
 
 \* analytic + simulated composition from given components; sims = sequence of [af |-> index, d |-> flat distribution]
 Compose(sh, d0, nocall, usesim, projs, heterrs, sims) ==
-    LET a0 == [k \in 1..Size(sh) |-> IF usesim[k] THEN "0" ELSE RMul(d0[k], RSub("1", nocall[k]))]
+    LET a0 == Tab([k \in 1..Size(sh) |-> IF usesim[k] THEN "0" ELSE RMul(d0[k], RSub("1", nocall[k]))])
         an == ContractAll(sh, a0, [p \in 1..Len(sh) |-> <<projs[p], heterrs[p]>>], 1)
-        sm == [k \in 1..Size(an.sh) |-> RSum([j \in 1..Len(sims) |-> RMul(d0[Flat(sh, sims[j].af)], sims[j].d[k])])]
-    IN  [sh |-> an.sh, d |-> [k \in 1..Size(an.sh) |-> RAdd(an.d[k], sm[k])]]
+        w  == Tab([j \in 1..Len(sims) |-> d0[Flat(sh, sims[j].af)]])
+        sm == [k \in 1..Size(an.sh) |-> RSum([j \in 1..Len(sims) |-> RMul(w[j], sims[j].d[k])])]
+    IN  [sh |-> an.sh, d |-> Tab([k \in 1..Size(an.sh) |-> RAdd(an.d[k], sm[k])])]
 \* the fully analytic corrected model (sim_threshold = 1)
 Apply(s, covs, nseq, nsub, Fs) ==
     LET P == Len(nseq)
         nc == NoCallND(covs, nseq, Fs)
+        lam == SurvivalAll(covs, nseq, nsub)
     IN  Compose(s.sh, Zeroed(s), nc, [k \in 1..Size(s.sh) |-> FALSE],
-                [p \in 1..P |-> SubsampleMat(covs[p], nseq[p], nsub[p], Fs[p])],
-                [p \in 1..P |-> CallingErrorMatrix(covs[p], nsub[p], Fs[p])], <<>>)
+                Tab([p \in 1..P |-> SubsampleMat(lam, nseq[p], nsub[p], Fs[p])]),
+                Tab([p \in 1..P |-> CallingErrorMatrix(covs[p], nsub[p], Fs[p])]), <<>>)
 \* deep-coverage limit: subsampling only
 DeepLimit(s, nseq, nsub, Fs) ==
-    ContractAll(s.sh, Zeroed(s), [p \in 1..Len(nseq) |-> <<ProjectionMatrix(nseq[p], nsub[p], Fs[p])>>], 1)
+    ContractAll(s.sh, Zeroed(s), Tab([p \in 1..Len(nseq) |-> <<ProjectionMatrix(nseq[p], nsub[p], Fs[p])>>]), 1)
 
 \* closure predicates
 IsDist(v)        == (\A j \in 1..Len(v) : RNonNeg(v[j])) /\ RSum(v) = "1"
